@@ -50,7 +50,19 @@ def run_rejection(ctx, spec, prob, data, prior, smp, seed_override=None):
     rg = RecordingGenerator(np.random.PCG64(spec["rng_seed"]))
     pool = RecordingPool(size=spec.get("pool_size", 1))
     joker = tj.TheJoker(prior, rng=rg, pool=pool)
+    c01.prehistory(ctx, spec, joker, smp)
     kw = dict(n_linear_samples=spec["n_linear"], max_posterior_samples=spec.get("max_post"))
+    if spec.get("iterative"):
+        # the iterative sampler draws the linear parameters through the same step
+        with ctx.sut("iterative_rejection_sample[%s]" % path):
+            kw2 = dict(n_linear_samples=spec["n_linear"], n_requested_samples=len(smp), init_batch_size=len(smp))
+            if path == "mem":
+                out = joker.iterative_rejection_sample(data, smp, in_memory=True, **kw2)
+            else:
+                out = joker.iterative_rejection_sample(data, smp, n_batches=spec.get("n_batches"), **kw2)
+        calls = rg.calls("multivariate_normal") if path == "mem" else \
+            [c for log in pool.child_logs for c in log if c["name"] == "multivariate_normal"]
+        return out, calls, rg, pool
     with ctx.sut("rejection_sample[%s]" % path):
         if path == "mem":
             out = joker.rejection_sample(data, smp, in_memory=True, **kw)
@@ -78,6 +90,7 @@ def body_factory(ctx):
             smp = gens.build_samples(spec)
         rows_eff = c01.effective_rows(smp, prob.data_unit)
         import thejoker as tj
+        c01.prehistory(ctx, spec, tj.TheJoker(prior), smp)   # (before anything else touches this prior object)
         with ctx.sut("marginal_ln_likelihood"):
             probe = np.asarray(tj.TheJoker(prior).marginal_ln_likelihood(data, smp, in_memory=True), dtype=float)
         if not np.all(np.isfinite(probe)):
@@ -268,6 +281,8 @@ def cases(draw, thorough=False):
     spec["n_linear"] = draw(st.sampled_from([1, 1, 2, 3, 5, 16, 64]))
     spec["rng_seed"] = draw(st.integers(0, 2**32 - 1))
     spec["max_post"] = draw(st.sampled_from([None, None, 1, 2, 100]))
+    spec["iterative"] = draw(st.integers(0, 5)) == 0
+    spec["prehistory"] = draw(st.sampled_from([None, None, None, "errors", "unit"]))
     if spec["path"] != "mem":
         spec["n_batches"] = draw(st.one_of(st.none(), st.integers(1, len(spec["rows"]) + 1)))
         spec["pool_size"] = draw(st.integers(1, 4))
